@@ -66,6 +66,7 @@ def run(idx: Index, rep: Report, tier: str):
     check_symmetry_operators(idx, rep, tier)
     check_penalties(idx, rep)
     check_reordering(idx, rep)
+    check_spin_source(idx, rep)
     # "for all parameter values": a parameter vector also reaches the circuit through update_var_params; the particle-conserving structure is that
     # of the *built* circuit, so the updated circuit has to be the built one (necessary condition, decided as in C07)
     from . import C07
@@ -323,3 +324,29 @@ def check_reordering(idx: Index, rep: Report):
     ok = sp.simplify(sp.floor((2 * p) / 2) - p) == 0 and sp.simplify(sp.floor((2 * p + 1) / 2) + sp.ceiling(2 * n_ / 2) - (p + n_)) == 0
     rep.decide(ok, rule, f, f.node, text="(2p -> p, 2p+1 -> p + n) under i//2 + [i odd] * ceil(2n/2)", what="operator re-indexing and index selection describe the same permutation",
                reason="permutations disagree")
+
+
+# ---------------------------------------------------------------------------------------------------
+def check_spin_source(idx: Index, rep: Report):
+    """The reference determinant of an ansatz has (n + 2S)/2 alpha electrons with 2S the spin *of the active space*: for unrestricted
+    molecules with different frozen alpha / beta orbitals it differs from the molecule's total spin.  Every ansatz class that keeps a
+    `spin` taken from the molecule must take `active_spin` - unless the class refuses unrestricted molecules before, where both agree."""
+    rule = "K8.spin-source"
+    from . import C07
+    base = idx.cls(f"{C07.ANSATZ}::Ansatz")
+    n = 0
+    for c in sorted(idx.subclasses(base), key=lambda k: k.name):
+        init = c.methods.get("__init__")
+        if init is None:
+            continue
+        refuses_uhf = any(isinstance(x, ast.If) and "uhf" in norm(x.test) and any(isinstance(b, ast.Raise) for b in x.body) for x in ast.walk(init.node))
+        for st in ast.walk(init.node):
+            if isinstance(st, ast.Assign) and norm(st.targets[0]) == "self.spin" and "molecule" in norm(st.value):
+                n += 1
+                srcs = {norm(x) for x in ast.walk(st.value) if isinstance(x, ast.Attribute) and norm(x).endswith(("molecule.spin", "molecule.active_spin"))}
+                ok = all(sx.endswith("active_spin") for sx in srcs) or refuses_uhf
+                rep.decide(ok, rule, init, st, text=f"{c.name}: self.spin = {norm(st.value)}{' (class refuses unrestricted molecules)' if refuses_uhf and not all(sx.endswith('active_spin') for sx in srcs) else ''}",
+                           what="the spin that fixes the reference determinant is the active space's (2S = active alpha - active beta electrons)",
+                           reason=f"{c.name} takes {sorted(srcs)}: for an unrestricted molecule whose frozen alpha and beta orbitals differ the reference determinant, and with it every "
+                                  f"prepared state, sits in the wrong spin-projection sector")
+    rep.floor("ansatz classes taking their spin from the molecule", n, 6)
